@@ -25,6 +25,10 @@ def cells(tier):
         # a stopped task parked in its (slow, async) cancel callback when the next stop arrives
         sc = scen(pool(size, "SimpleTaskPool", ecb="plain", ccb="slow", slow_ids=[1, 2]), [[S("S", 3)], [["stop", 1], ["stop", 1]], [["stop_all"]]], outcomes=["ret"])
         out.append(cell(f"s{size} S3 stop1,stop1 stop_all slowccb", sc, MON))
+    # a locked pool whose accepted start() still has a spawn queued: the fresh task is stopped before/after its first step
+    for size in [1, 2]:
+        sc = scen(pool(size, "SimpleTaskPool", ecb="plain", ccb="plain"), [[S("S", size + 1)], [LOCK], [["stop", 1], ["stop", 1]]], outcomes=["ret"])
+        out.append(cell(f"s{size} S{size + 1}|lock|stop(1),stop(1) (queued spawn in a locked pool)", sc, MON))
     # the pool is used again after an attempt to close it failed (a worker raised) or was cancelled
     sc = scen(pool("inf", "SimpleTaskPool", ecb="plain", ccb="plain"), [[S("S", 3)], [["gac", {"when": "quiet_idle"}]], [["cancel_op", 1]],
                 [["unlock", {"after": [1, 1], "after_done": True}], S("T", 1), ["stop", 2]]], outcomes=["ret"])
